@@ -5,7 +5,7 @@ from fractions import Fraction
 
 import z3
 
-from .model import all_supply_symbols, zz, q
+from .model import all_supply_symbols, zz, q, waste, waste_consts
 
 EPS = z3.RatVal(1, 10 ** 9)
 
@@ -96,7 +96,6 @@ def concrete_inputs(cfg, vals, growth):
     """consts_for_optimizer / time_consts for the REAL optimiser (real PuLP + CBC) from concrete supplies; same layout as lpsym.model.build"""
     NS = types.SimpleNamespace
     N = cfg["N"]
-    wr = cfg["retail"]
     pop = cfg["pop"]
     kcm = cfg["kcals_daily"] * 30
     inputs = dict(INCLUDE_FAT=False, INCLUDE_PROTEIN=False, OG_USE_BETTER_ROTATION=cfg["rotation"], COUNTRY_CODE="XXX")
@@ -111,7 +110,7 @@ def concrete_inputs(cfg, vals, growth):
         run.append(acc)
     consts = dict(NMONTHS=N, STORE_FOOD_BETWEEN_YEARS=cfg["store"], POP=pop, KCALS_MONTHLY=kcm, BILLION_KCALS_NEEDED=pop * kcm / 1e9,
                   SEAWEED_KCALS=cfg["seaweed_kcals"], INITIAL_SEAWEED=0.01, MAXIMUM_DENSITY=3600, MINIMUM_DENSITY=1200, INITIAL_BUILT_SEAWEED_AREA=0.003, HARVEST_LOSS=20,
-                  SEAWEED_WASTE_RETAIL=wr, STORED_FOOD_WASTE_RETAIL=wr, MEAT_WASTE_RETAIL=wr, CROP_WASTE_RETAIL=wr, SCP_RETAIL_WASTE=wr, CELL_SUGAR_RETAIL_WASTE=wr,
+                  **waste_consts(cfg),
                   INITIAL_HARVEST_DURATION_IN_MONTHS=cfg["harvest_duration"], DELAY=dict(ROTATION_CHANGE_IN_MONTHS=cfg["rotation_delay"]),
                   OG_FRACTION_FAT=0.01, OG_FRACTION_PROTEIN=0.02, OG_ROTATION_FRACTION_FAT=0.012, OG_ROTATION_FRACTION_PROTEIN=0.021, inputs=inputs,
                   stored_food=NS(initial_available=NS(kcals=vals["sf0"])), meat_summed_consumption=acc)
@@ -169,7 +168,7 @@ def float_audit(cfg, vals, growth, X, tol_rel=1e-6):
     """audit of a concrete allocation X (dict as returned by run_real) against concrete supplies, floats; returns list of violated clause names"""
     N = cfg["N"]
     F = cfg["flags"]
-    w = 1.0 / (1 - cfg["retail"] / 100)
+    wf = lambda food: 1.0 / (1 - waste(cfg, food) / 100)
     K = cfg["seaweed_kcals"]
     g = lambda key, m: float(X[key][m] or 0.0)
     scale = 1 + sum(abs(x) for v in vals.values() if isinstance(v, list) for x in v) + abs(vals["sf0"])
@@ -179,7 +178,7 @@ def float_audit(cfg, vals, growth, X, tol_rel=1e-6):
     if F.get("STORED_FOOD"):
         c = 0.0
         for m in range(N):
-            c += g("stored_food_to_humans", m) * w + g("stored_food_feed", m) + g("stored_food_biofuel", m)
+            c += g("stored_food_to_humans", m) * wf("stored_food") + g("stored_food_feed", m) + g("stored_food_biofuel", m)
             if c > vals["sf0"] + tol:
                 bad.append("stored food: cumulative use <= initial stock [month %d]" % m)
         if human and cfg["store"] and abs(c - vals["sf0"]) > tol:
@@ -187,7 +186,7 @@ def float_audit(cfg, vals, growth, X, tol_rel=1e-6):
     if F.get("OUTDOOR_GROWING"):
         c = h = 0.0
         for m in range(N):
-            c += g("crops_food_to_humans", m) * w + g("crops_food_feed", m) + g("crops_food_biofuel", m)
+            c += g("crops_food_to_humans", m) * wf("crops_food") + g("crops_food_feed", m) + g("crops_food_biofuel", m)
             h += vals["crops"][m]
             if c > h + tol:
                 bad.append("crops: cumulative use <= harvested so far [month %d]" % m)
@@ -196,16 +195,16 @@ def float_audit(cfg, vals, growth, X, tol_rel=1e-6):
     if F.get("MEAT"):
         c = s = 0.0
         for m in range(N):
-            c += g("meat_eaten", m) * w
+            c += g("meat_eaten", m) * wf("meat")
             s += vals["slaughter"][m]
             if cfg["store"] and c > s + tol:
                 bad.append("meat: cumulative use <= slaughtered so far [month %d]" % m)
-            if not cfg["store"] and g("meat_eaten", m) * w > vals["slaughter"][m] + tol:
+            if not cfg["store"] and g("meat_eaten", m) * wf("meat") > vals["slaughter"][m] + tol:
                 bad.append("meat: monthly use <= slaughtered that month (no storage) [month %d]" % m)
     for flag, pre, sk, nm in (("METHANE_SCP", "methane_scp", "scp", "single-cell protein"), ("CELLULOSIC_SUGAR", "cellulosic_sugar", "cs", "cellulosic sugar")):
         if F.get(flag):
             for m in range(N):
-                if g(pre + "_to_humans", m) * w + g(pre + "_feed", m) + g(pre + "_biofuel", m) > vals[sk][m] + tol:
+                if g(pre + "_to_humans", m) * wf(pre) + g(pre + "_feed", m) + g(pre + "_biofuel", m) > vals[sk][m] + tol:
                     bad.append("%s: monthly use <= that month's output [month %d]" % (nm, m))
     if F.get("SEAWEED"):
         for m in range(N):
@@ -215,7 +214,7 @@ def float_audit(cfg, vals, growth, X, tol_rel=1e-6):
             if area < 0.003 - tol or area > vals["area"][m] + tol:
                 bad.append("seaweed: used area within [initial, built] [month %d]" % m)
             if m > 0:
-                led = (g("seaweed_wet_on_farm", m - 1) * (1 + growth[m] / 100.0) - g("seaweed_to_humans", m) * w - g("seaweed_feed", m) - g("seaweed_biofuel", m)
+                led = (g("seaweed_wet_on_farm", m - 1) * (1 + growth[m] / 100.0) - g("seaweed_to_humans", m) * wf("seaweed") - g("seaweed_feed", m) - g("seaweed_biofuel", m)
                        - (area - g("used_area", m - 1)) * 1200 * 0.2)
                 if abs(wet - led) > tol:
                     bad.append("seaweed: growth-and-harvest ledger [month %d]" % m)
